@@ -8,6 +8,7 @@ import json
 import re
 import time
 import z3
+from mirsym.core import zstr
 
 from lib import common, cssref
 from lib.common import log
@@ -315,7 +316,7 @@ IDENT_RX = re.compile(r'^[a-zA-Z_][a-zA-Z0-9_-]*$')
 def mstr(model, term, default):
     v = model.eval(term, model_completion=True)
     try:
-        s = v.as_string()
+        s = zstr(v)
     except Exception:
         return default
     return s if IDENT_RX.match(s or '') else default
@@ -699,7 +700,7 @@ def lows(q):
 def is_media_kw(e):
     t = tok_of(e[3])
     v = t[2].fields.get(0) if t and t[0] == 'synth' else None
-    return isinstance(v, z3.ExprRef) and z3.is_string_value(v) and v.as_string() == 'media'
+    return isinstance(v, z3.ExprRef) and z3.is_string_value(v) and zstr(v) == 'media'
 
 
 def token_position(level, i, pending=-1):
